@@ -165,6 +165,7 @@ def cg(A: LinearOperator, B: torch.Tensor,
 
         if torch.all(resid_norm < stop_matrix):
             converge = True
+            best_xk = xk_1  # the iterate that passed the test, not the best one so far
             break
 
         zk_1 = precond_fcn(rk_1)
@@ -309,6 +310,7 @@ def bicgstab(A: LinearOperator, B: torch.Tensor,
         # check for the stopping conditions
         if torch.all(resid_norm < stop_matrix):
             converge = True
+            best_xk = xk  # the iterate that passed the test, not the best one so far
             break
 
         rho_k = rho_knew
@@ -432,6 +434,7 @@ def gmres(A: LinearOperator, B: torch.Tensor,
 
             if torch.all(resid_norm < stop_matrix):
                 converge = True
+                best_res = res  # the iterate that passed the test, not the best one so far
                 break
 
     if not converge:
